@@ -160,4 +160,33 @@ def Run.start {σ : Type} (r : Run σ) : Run σ := { r with frontendsUp := true,
 
 def Run.reload {σ : Type} (r : Run σ) : Run σ := (r.stop true).1.start
 
+/-! ## the signal loop of `cmd/chihaya` (`RootRunCmdFunc`)
+
+`reloadDone` is the state of the reload context's `Done()` channel. `signal.NotifyContext` closes it when
+the first signal arrives and it stays closed; the repaired loop arms a fresh context before it handles a
+reload (`rearm := true`), the original did not. -/
+structure SigLoop where
+  reloadDone : Bool := false
+  termDone : Bool := false
+  reloads : Nat := 0
+  exited : Bool := false
+  deriving Repr, DecidableEq
+
+inductive SigEv where
+  | usr1      -- the reload signal is delivered
+  | term      -- SIGINT / SIGTERM is delivered
+  | select    -- one iteration of the loop's `select` (the reload case is taken when both are ready)
+  deriving Repr, DecidableEq
+
+def SigLoop.step (rearm : Bool) (s : SigLoop) : SigEv → SigLoop
+  | .usr1 => if s.exited then s else { s with reloadDone := true }
+  | .term => if s.exited then s else { s with termDone := true }
+  | .select =>
+    if s.exited then s
+    else if s.reloadDone then { s with reloadDone := !rearm, reloads := s.reloads + 1 }
+    else if s.termDone then { s with exited := true }
+    else s
+
+def SigLoop.run (rearm : Bool) (s : SigLoop) (evs : List SigEv) : SigLoop := evs.foldl (SigLoop.step rearm) s
+
 end Lifecycle
